@@ -684,22 +684,22 @@ macro_rules! marginalize_validation_h {
 }
 
 //@@BEGIN MARGINALIZE_VALIDATION_CASES@@
-// @harness props=C04 tier=quick group=f64 bounds=shape=[1,1,1,1],axis-list-length=0,entries=0..5 timeout=1200
+// @harness props=C04,C17 tier=quick group=f64 bounds=shape=[1,1,1,1],axis-list-length=0,entries=0..5 timeout=1200
 marginalize_validation_h!(marginalize_validation_len0, 0, 10);
 
-// @harness props=C04 tier=quick group=f64 bounds=shape=[1,1,1,1],axis-list-length=1,entries=0..5 timeout=1200
+// @harness props=C04,C17 tier=quick group=f64 bounds=shape=[1,1,1,1],axis-list-length=1,entries=0..5 timeout=1200
 marginalize_validation_h!(marginalize_validation_len1, 1, 10);
 
-// @harness props=C04 tier=quick group=f64 bounds=shape=[1,1,1,1],axis-list-length=2,entries=0..5 timeout=1200
+// @harness props=C04,C17 tier=quick group=f64 bounds=shape=[1,1,1,1],axis-list-length=2,entries=0..5 timeout=1200
 marginalize_validation_h!(marginalize_validation_len2, 2, 10);
 
-// @harness props=C04 tier=quick group=f64 bounds=shape=[1,1,1,1],axis-list-length=3,entries=0..5 timeout=1200
+// @harness props=C04,C17 tier=quick group=f64 bounds=shape=[1,1,1,1],axis-list-length=3,entries=0..5 timeout=1200
 marginalize_validation_h!(marginalize_validation_len3, 3, 10);
 
-// @harness props=C04 tier=quick group=f64 bounds=shape=[1,1,1,1],axis-list-length=4,entries=0..5 timeout=1200
+// @harness props=C04,C17 tier=quick group=f64 bounds=shape=[1,1,1,1],axis-list-length=4,entries=0..5 timeout=1200
 marginalize_validation_h!(marginalize_validation_len4, 4, 10);
 
-// @harness props=C04 tier=thorough group=f64 bounds=shape=[1,1,1,1],axis-list-length=5,entries=0..5 timeout=1200
+// @harness props=C04,C17 tier=thorough group=f64 bounds=shape=[1,1,1,1],axis-list-length=5,entries=0..5 timeout=1200
 marginalize_validation_h!(marginalize_validation_len5, 5, 10);
 
 //@@END MARGINALIZE_VALIDATION_CASES@@
@@ -1647,3 +1647,73 @@ stat_grid_h!(stat_grid_1x1x1x1, 4, 1, [1, 1, 1, 1], 20);
 stat_grid_h!(stat_grid_2x1x1x1x1, 5, 2, [2, 1, 1, 1, 1], 20);
 
 //@@END STAT_GRID_CASES@@
+
+/// Hudson's Fst with UNEQUAL sample sizes (n1 - 1 != n2 - 1), and its symmetry under swapping
+/// the two populations
+// @harness props=C06,C14 tier=quick group=f64 bounds=3x4(and-4x3),cells=0..3,tolerance=1e-9 timeout=2400
+#[kani::proof]
+#[kani::unwind(16)]
+#[kani::stub(f64::powi, powi_model)]
+fn stat_def_fst_3x4() {
+    const A: usize = 3;
+    const B: usize = 4;
+    let d: [u8; 12] = small::<12>(4);
+    let sfs = sfs_of([A, B], &d);
+    let (n1, n2) = (A - 1, B - 1);
+    let mut num = 0.0f64;
+    let mut den = 0.0f64;
+    let mut t = [0u8; 12];
+    let mut i = 0;
+    while i < A {
+        let mut j = 0;
+        while j < B {
+            t[j * A + i] = d[i * B + j];
+            let corner = (i == 0 && j == 0) || (i == n1 && j == n2);
+            if !corner {
+                let x = d[i * B + j] as f64;
+                let (fi, fj) = (i as f64 / n1 as f64, j as f64 / n2 as f64);
+                num += x * ((fi - fj) * (fi - fj) - fi * (1.0 - fi) / (n1 as f64 - 1.0) - fj * (1.0 - fj) / (n2 as f64 - 1.0));
+                den += x * (fi * (1.0 - fj) + fj * (1.0 - fi));
+            }
+            j += 1;
+        }
+        i += 1;
+    }
+    let swapped = sfs_of([B, A], &t);
+    match (sfs.fst(), swapped.fst()) {
+        (Ok(v), Ok(w)) => {
+            assert!((den == 0.0 && v != v) || (den != 0.0 && close(v * den, num)));
+            assert!((den == 0.0 && w != w) || (den != 0.0 && close(w * den, num)));
+        }
+        _ => assert!(false),
+    }
+    kani::cover!(den > 0.0, "non-trivial");
+    core::mem::forget(swapped);
+    core::mem::forget(sfs);
+}
+
+/// spectra whose total is below one (frequencies, masked spectra): cells k/8
+// @harness props=C13,C14 tier=quick group=f64 bounds=shape=[3],cells=k/8(k=0..7),any-positive-sum,tolerance=1e-9 timeout=1800
+#[kani::proof]
+#[kani::unwind(6)]
+fn normalize_fractional_3() {
+    let d: [u8; 3] = small::<3>(8);
+    let total8 = d[0] as u32 + d[1] as u32 + d[2] as u32;
+    kani::assume(total8 > 0);
+    let x = [d[0] as f64 / 8.0, d[1] as f64 / 8.0, d[2] as f64 / 8.0];
+    let mut scs = Scs::new(x.to_vec(), vec![3usize]).unwrap();
+    scs.normalize();
+    let out = scs.inner().as_slice();
+    let total = total8 as f64 / 8.0;
+    let mut sum = 0.0;
+    let mut i = 0;
+    while i < 3 {
+        assert!(close(out[i] * total, x[i]));
+        sum += out[i];
+        i += 1;
+    }
+    assert!(close(sum, 1.0));
+    kani::cover!(total8 < 8, "total below one");
+    kani::cover!(total8 > 8, "total above one");
+    core::mem::forget(scs);
+}
